@@ -354,6 +354,40 @@ func runC11(c *Ctx) {
 			}
 			c.MinInstances("C11.R10 append-path-follows-root", n10, 2)
 		}
+		// R11: the proof verifier keeps one hash per tree index. A hash supplied by the caller
+		// (query hash, update hash) goes into that table only where the index was not there yet
+		// or the hash already stored was compared with it — an index listed twice must not let
+		// the second hash silently replace the first (a forged hash listed before the real one
+		// would be "proven")
+		if cpn := c.Anchor("pkg/trie/rmt.calculatePathNodes"); cpn != nil {
+			cf := factsOf(cpn)
+			n11 := 0
+			for _, b := range blocksDeep(cpn) {
+				for _, in := range b.Instrs {
+					mu, ok := in.(*ssa.MapUpdate)
+					if !ok {
+						continue
+					}
+					vt := cf.Term(mu.Value)
+					if !strings.HasPrefix(vt.String(), "p0[") {
+						continue // computed parents are compared further down (existing check)
+					}
+					n11++
+					mt, kt := cf.Term(mu.Map).String(), cf.Term(mu.Key).String()
+					ok2 := cf.EveryPathHas(mu.Block(), func(f Fact) bool {
+						if !f.IsCmp && f.B.Op == "extract" && f.B.Sym == "#1" && f.B.Args[0].Op == "lookup" && f.B.Args[0].Args[0].String() == mt && f.B.Args[0].Args[1].String() == kt {
+							return !f.Truth // not there yet
+						}
+						if !f.IsCmp && f.Truth && f.B.Op == "call" && strings.HasSuffix(f.B.Sym, "bytes.Equal") {
+							return strings.Contains(f.B.String(), vt.String())
+						}
+						return false
+					})
+					c.Require("C11.R11 one-hash-per-index", FuncKey(cpn)+": "+mt+"["+kt+"] = "+vt.String(), p.InstrPos(mu), "a caller-supplied hash enters the index table only for a new index or after being compared with the hash already there", ok2, "")
+				}
+			}
+			c.MinInstances("C11.R11 one-hash-per-index", n11, 1)
+		}
 		if trim := c.Anchor("pkg/trie/rmt.intToBytesWithoutLeadingZero"); trim != nil {
 			checkLeadingTrimFirstMatch(c, "C11.R9 leading-trim-stops-at-first-match", trim)
 		}
